@@ -64,6 +64,7 @@ var (
 	sgEphemeralKinds   = []int64{20001, 29999}
 	sgDValues          = []string{"", "x", "y:z", "X"} // "X": addresses that differ only in letter case are different addresses
 	SGTagValues        = []string{"", "v1", "v2"}
+	sgManyLetters      = "bcfghijklmnoqrstuvwxyz" // single-letter tag names without a meaning of their own here
 )
 
 func (g *StoreGen) at() int64 {
@@ -103,6 +104,14 @@ func (g *StoreGen) extraTags(e *mocrelay.Event) {
 	if g.R.IntN(12) == 0 {
 		// NIP-40 style expiration (past or future): stores know nothing about it
 		e.Tags = append(e.Tags, mocrelay.Tag{"expiration", strconv.FormatInt(Pick(g.R, []int64{1, 1000, 1600000000, 4102444800}), 10)})
+	}
+	if g.R.IntN(30) == 0 {
+		// many indexable tags (12-66 distinct name/value pairs, so that the number of index rows
+		// of an event hits every small multiple of a batch size now and then)
+		n := 12 + g.R.IntN(55)
+		for _, k := range g.R.Perm(len(sgManyLetters) * len(SGTagValues))[:n] {
+			e.Tags = append(e.Tags, mocrelay.Tag{string(sgManyLetters[k/len(SGTagValues)]), SGTagValues[k%len(SGTagValues)]})
+		}
 	}
 	if g.R.IntN(20) == 0 {
 		// one-byte tag names that are not letters (U+0000..U+0002), carrying the id of another
@@ -329,7 +338,7 @@ func (g *FilterGen) Filter() *mocrelay.ReqFilter {
 		f.Tags = map[string][]string{}
 		n := 1 + r.IntN(2)
 		for i := 0; i < n; i++ {
-			name := Pick(r, []string{"t", "p", "e", "d", "t", "p", "e", "d", "T", "E", "P"})
+			name := Pick(r, []string{"t", "p", "e", "d", "t", "p", "e", "d", "T", "E", "P", string(sgManyLetters[r.IntN(len(sgManyLetters))])})
 			vals := subset(r, SGTagValues, "absent")
 			if name == "d" {
 				vals = subset(r, sgDValues, "absent")
